@@ -59,7 +59,7 @@ def padding(r, quick):
     with multiprocessing.Pool(16) as pool:
         out += pool.map(_unpad_sweep_one, jobs, chunksize=4)
     # (b) real block sizes: pad on data of boundary lengths and adversarial endings, unpad of the result and of its mutations
-    sizes = [1, 2, 3, 7, 8, 15, 16, 17, 32, 64, 128, 255]
+    sizes = [1, 2, 8, 16, 17, 255] if quick else [1, 2, 3, 7, 8, 15, 16, 17, 32, 64, 128, 255]
     for style in STYLES:
         for bs in sizes + ([256, 300] if style == "iso7816" else []):
             lens = sorted(set([0, 1, bs - 1, bs, bs + 1, 2 * bs - 1, 2 * bs, 3 * bs + 2]))
